@@ -24,4 +24,12 @@ PROPS = {
         "trusted": ["recording connection (harness/internal/recconn) validates subjects like nats.go"],
         "assumptions": ["explicit ownership entries are valid resource patterns"],
     },
+    "C10": {
+        "streams": [{"domain": "store"}],
+        "require_tags": ["update-remadd", "update-rem", "update-add", "update-change", "update-silent", "create-createev",
+                         "delete-deleteev", "create-change-dflt", "create-remadd-dflt", "delete-change-dflt", "get-held", "get-missing"],
+        "trusted": ["encoding/json for the wire format of events and get responses; mockstore as the store"],
+        "assumptions": ["element values are canonical JSON texts, so byte equality coincides with store.Value.Equal (C18 covers Equal itself)",
+                        "the transformer's Transform is total (failing transforms are not modelled)"],
+    },
 }
